@@ -55,6 +55,9 @@ def gen_base(rng):
                         allowed_text=rng.choice([None, None, "32...", "32:126, 160...255"]),
                         line_delimiter=rng.choice([None, "lf", "crlf", "any"]) if kind in ("delimited", "fixed") else None,
                         sheet=rng.choice([None, 1, 2]) if kind in ("excel", "ods") else None)
+    if rng.random() < 0.3:
+        # the format under its other documented name, or in other letter cases
+        model.format_spelling = rng.choice({"delimited": ["csv", "CSV", " Csv ", "DELIMITED"], "fixed": ["FIXED", "fixed "], "excel": ["excel", "EXCEL"], "ods": ["ods", "Ods"]}[kind])
     rows = model.cid_rows()
     if model.allowed_text:
         from cpverif.models import rangemodel as R
